@@ -150,8 +150,9 @@ pub fn gen_cfg(r: &mut Sm, case: u64, tier: &str) -> SchedCfg {
     let (b1, b2, b3) = (if r.coin() { 12 } else { 100 }, if r.coin() { 5 } else { 30 }, if r.coin() { 3 } else { 30 });
     SchedCfg {
         preset, num_tune, num_draws: 5 + r.below(20),
-        early_window: if r.below(5) == 0 { 0.0 } else { r.range(0.0, 0.6) },
-        step_size_window: if r.below(5) == 0 { 0.0 } else { r.range(0.0, 0.5) },
+        // every seventh case: fractions that OVERLAP (early phase reaching into the final step-size window), step-size window up to 1.0; early_window < 1 is asserted by GlobalStrategy::new
+        early_window: if case % 7 == 3 { *r.pick(&[0.6, 0.75, 0.9, 0.99]) } else if r.below(5) == 0 { 0.0 } else { r.range(0.0, 0.6) },
+        step_size_window: if case % 7 == 3 { *r.pick(&[0.5, 0.7, 1.0]) } else if r.below(5) == 0 { 0.0 } else { r.range(0.0, 0.5) },
         switch_freq: 1 + r.below(b1),
         early_switch_freq: 1 + r.below(b2),
         update_freq: 1 + r.below(b3),
